@@ -217,27 +217,38 @@ type Bundle struct {
 	Msgs     map[uint64]*soymsg.Message
 	MsgCalls int
 	PlCalls  int
-	// misbehaviour is applied from this Message call on (1-based; 0 = from the start)
-	From int
+	// misbehaviour is applied from this Message call on (1-based; 0 = from the start); before
+	// that the identity catalogue Good answers
+	From       int
+	Good       map[uint64]*soymsg.Message
+	Misbehaved int
 }
 
 func (b *Bundle) Locale() string { return "xx" }
 
 func (b *Bundle) Message(id uint64) *soymsg.Message {
 	b.MsgCalls++
-	m := b.Msgs[id]
-	return m
+	if b.Good != nil && b.From > 0 && b.MsgCalls < b.From {
+		return b.Good[id]
+	}
+	if b.Msgs[id] != nil {
+		b.Misbehaved++
+	}
+	return b.Msgs[id]
 }
 
 func (b *Bundle) PluralCase(n int) int {
 	b.PlCalls++
-	switch b.Kind {
-	case BundlePluralCaseHigh:
-		return 1 << 20
-	case BundlePluralCaseNegative:
-		return -1
+	if !(b.From > 0 && b.MsgCalls < b.From) {
+		switch b.Kind {
+		case BundlePluralCaseHigh:
+			b.Misbehaved++
+			return 1 << 20
+		case BundlePluralCaseNegative:
+			b.Misbehaved++
+			return -1
+		}
 	}
-	// English-like: explicit cases first in our stub: index 0 for n==0?, keep simple: 0 for 1, 1 otherwise
 	if n == 1 {
 		return 0
 	}
@@ -289,6 +300,9 @@ func WalkMsgs(n ast.Node, f func(*ast.MsgNode)) {
 // NewBundle builds the catalogue for the given message nodes.
 func NewBundle(kind BundleKind, msgs []*ast.MsgNode) *Bundle {
 	b := &Bundle{Kind: kind, Msgs: map[uint64]*soymsg.Message{}}
+	if kind >= BundleUnknownPlaceholder {
+		b.Good = NewBundle(BundleIdentity, msgs).Msgs
+	}
 	for i, m := range msgs {
 		parts := partsOf(m.Body)
 		switch kind {
